@@ -366,6 +366,24 @@ def run(ctx):
                 ctx.violation(c1, bulk_of[id(c)], e, 'C20_stream_is_bulk', 'model: stream run on a partition without empty chunks differs from the bulk run (theorem contradicted: model tie broken)', no_input=True)
             ndiff += 1
     ctx.stat('stream_model_runs_with_empty_chunk_differing_from_bulk', ndiff)
+    # (3b) two readers alive at once, chunks delivered alternately: each must still give ITS bulk value (C20_stream_is_bulk is per
+    # reader; the model's readers share nothing). Only inputs with a configuration in common are paired.
+    upool = [c for c in ucases if len(c['data']) >= 2 and c['encoding'] == 'utf-8']
+    pairs, p_exp = [], []
+    for _ in range(60 if ctx.tier == 'quick' else 3000):
+        ca = rng.choice(upool)
+        same = [c for c in upool if all(c.get(k) == ca.get(k) for k in KEYS if k != 'data')]
+        cb = rng.choice(same)
+        cp = {k: ca.get(k) for k in KEYS}
+        cp.update(kind='pair', pieces_a=random_partition(rng, ca['data'], False), pieces_b=random_partition(rng, cb['data'], False))
+        pairs.append(cp)
+        p_exp.append([bulk_of[id(ca)], bulk_of[id(cb)]])
+    p_got = lib.run_impl_js('c20', pairs)
+    ctx.compare(pairs, p_exp, p_got, THEOREM + ' [two readers at once: each equals its own bulk value]',
+                describe=lambda c, e, g: 'two stream readers alive at once (chunks %r and %r, %s): expected their bulk values %r, got %r' % (
+                    c['pieces_a'], c['pieces_b'], {k: c.get(k) for k in KEYS if k != 'data'}, e, g))
+    ctx.count(2 * len(pairs))
+    ctx.stat('concurrent_reader_pairs', len(pairs))
     # decode_streaming (model) vs python's incremental decoder, chunk by chunk
     m_dec = m_dec0
     import codecs
